@@ -829,6 +829,9 @@ func (m *Mirror) handleFuturePrevoteProofs(
 	}
 
 	switch result {
+	case tmi.AddVoteConflict:
+		// The round is not a future round any more: start over with a fresh view lookup.
+		return m.HandlePrevoteProofs(ctx, p)
 	case tmi.AddVoteAccepted:
 		// We are done.
 		return tmconsensus.HandleVoteProofsFutureVerified
@@ -1186,6 +1189,9 @@ func (m *Mirror) handleFuturePrecommitProofs(
 	}
 
 	switch result {
+	case tmi.AddVoteConflict:
+		// The round is not a future round any more: start over with a fresh view lookup.
+		return m.handlePrecommitProofs(ctx, p, "(*Mirror).handleFuturePrecommitProofs")
 	case tmi.AddVoteAccepted:
 		// We are done.
 		return tmconsensus.HandleVoteProofsFutureVerified
